@@ -12,6 +12,7 @@ from scipy import signal
 
 from common import VERIF, clist, parse_mat, qc_mat
 from pyoma2.algorithms import SSIcov_MS, SSIdat_MS
+from pyoma2.algorithms.data.run_params import SSIRunParams
 from pyoma2.functions import gen, ssi
 from pyoma2.setup import MultiSetup_PreGER
 
@@ -218,6 +219,164 @@ def check_split_case(ctx, case, datasets, reflists, impl, model):
             ctx.hist("malformed_disagreement", "%s-vs-%s" % (impl[0], model[0]))
 
 
+# ----------------------------------------------------------------------------------------------------------------
+# positional call forms.  The parameter ORDER below is the one of the signatures the property was written against and is
+# hard-coded here (never read from the tree under test):
+#   gen.pre_multisetup(dataList, reflist)
+#   gen.filter_data(data, fs, Wn, order=4, btype="lowpass")
+#   ssi.SSI_multi_setup(Y, fs, br, ordmax, method_hank, step=1)
+#   ssi.SSI_mpe(freq_ref, Fn_pol, Xi_pol, Phi_pol, order, Lab=None, rtol=5e-2, Fn_cov=None, Xi_cov=None, Phi_cov=None)
+#   MultiSetup_PreGER(fs, ref_ind, datasets);  .decimate_data(q, **kw);  .filter_data(Wn, order=8, btype="lowpass")
+#   MultiSetup_PreGER.mpe(name, sel_freq, order="find_min", rtol=5e-2)  (= SSIdat_MS.mpe(sel_freq, order, rtol) after the name)
+#   SSIdat_MS / SSIcov_MS(run_params=None, name=None)
+# Every call is made fully positionally with a non-default value in every position and must give (a) what the keyword call gives
+# and (b) what the property says.
+# ----------------------------------------------------------------------------------------------------------------
+def outcome(f):
+    try:
+        return ("ok", f())
+    except Exception as e:  # noqa: BLE001
+        return (type(e).__name__, None)
+
+
+def same_value(a, b):
+    """bit-equality of two results (None / scalars / arrays / sequences of those; NaN equals NaN)"""
+    if a is None or b is None:
+        return a is None and b is None
+    if isinstance(a, (list, tuple)) and isinstance(b, (list, tuple)):
+        return len(a) == len(b) and all(same_value(x, y) for x, y in zip(a, b))
+    a, b = np.asarray(a), np.asarray(b)
+    if a.shape != b.shape:
+        return False
+    if a.dtype.kind in "fc" and b.dtype.kind in "fc":
+        return bool(np.array_equal(a, b, equal_nan=True))
+    return bool(np.all(a == b))
+
+
+def positional_split(ctx, case, ds, rl, impl):
+    """pre_multisetup is driven positionally above (impl, judged by the oracle there); the keyword call gives the same split"""
+    ctx.hist("positional_call", "gen.pre_multisetup")
+    kw = outcome(lambda: [(np.array(s["ref"]), np.array(s["mov"])) for s in
+                          gen.pre_multisetup(dataList=[d.copy() for d in ds], reflist=[list(r) for r in rl])])
+    if kw[0] != impl[0] or (kw[0] == "ok" and not same_value([list(t) for t in kw[1]], [list(t) for t in impl[1]])):
+        ctx.fail("oracle", "pre_multisetup(datasets, reference lists) called positionally (%s) differs from pre_multisetup(dataList=, reflist=) (%s)"
+                 % (impl[0], kw[0]), dict(case, call="positional"), key="C03:pre_multisetup:positional-call")
+
+
+def positional_ssi(ctx, case, Y, spec, method, Phi, tol, Al1):
+    """SSI_multi_setup(Y, fs, br, ordmax, method_hank, step) with step = 2: orders 0, 2, ..., 2m; the last one is the global system;
+    the list is every second entry of the step-1 list Al1 of the same records."""
+    m, nref, nmovs, br, fs = spec["m"], spec["nref"], spec["nmovs"], spec["br"], spec["fs"]
+    n, nD = 2 * m, nref + sum(nmovs)
+    case = dict(case, call="positional", step=2)
+    ctx.hist("positional_call", "ssi.SSI_multi_setup")
+    ctx.count(dict(case, part="positional-ssi"))
+    pos = outcome(lambda: ssi.SSI_multi_setup(Y, float(fs), int(br), n, method, 2))
+    kw = outcome(lambda: ssi.SSI_multi_setup(Y=Y, fs=float(fs), br=int(br), ordmax=n, method_hank=method, step=2))
+    if pos[0] != "ok" or kw[0] != "ok":
+        ctx.fail("oracle", "SSI_multi_setup(Y, fs, br, 2m, %r, 2): positional call -> %s, keyword call -> %s" % (method, pos[0], kw[0]), case,
+                 key="C03:SSI_multi_setup:positional-call")
+        return
+    (Op, Ap, Cp), (Ok, Ak, Ck) = pos[1], kw[1]
+    if not (same_value(Op, Ok) and same_value(list(Ap), list(Ak)) and same_value(list(Cp), list(Ck))):
+        ctx.fail("oracle", "SSI_multi_setup(Y, fs, br, 2m, %r, 2) called positionally differs from the same call by keywords "
+                 "(Y=, fs=, br=, ordmax=, method_hank=, step=)" % method, case, key="C03:SSI_multi_setup:positional-call")
+        return
+    shapes_ok = len(Ap) == m + 1 and len(Cp) == m + 1 and all(np.shape(Ap[k]) == (2 * k, 2 * k) and np.shape(Cp[k]) == (nD, 2 * k) for k in range(m + 1))
+    if not shapes_ok or np.shape(Op) != (br * nD, n):
+        ctx.fail("oracle", "SSI_multi_setup(Y, fs, br=%d, ordmax=%d, %r, step=2) called positionally: %d system matrices of sizes %s, Obs_all %s "
+                 "(expected the orders 0, 2, ..., %d and Obs_all %s)" % (br, n, method, len(Ap), [np.shape(a)[0] for a in Ap], np.shape(Op), n, (br * nD, n)),
+                 case, key="C03:SSI_multi_setup:positional-call")
+        return
+    if len(Al1) == n + 1 and any(np.abs(np.asarray(Ap[k]) - np.asarray(Al1[2 * k])).max(initial=0.0) > 1e-9 * max(1.0, np.abs(np.asarray(Al1[2 * k])).max(initial=0.0))
+                                  for k in range(m + 1)):
+        ctx.fail("oracle", "SSI_multi_setup(..., step=2) called positionally: the system matrices are not those of the orders 0, 2, ..., 2m of the "
+                 "step-1 identification of the same records", case, key="C03:SSI_multi_setup:positional-call")
+        return
+    if tol <= TOL_CAP:
+        bad = modal_oracle(np.asarray(Ap[-1]), np.asarray(Cp[-1]), spec, Phi, tol)
+        if bad:
+            ctx.fail("oracle", "SSI_multi_setup(Y, fs, br, 2m, %r, 2) called positionally does not return the global system: %s" % (method, bad), case,
+                     key="C03:SSI_multi_setup:positional-call")
+
+
+def positional_class(ctx):
+    """MultiSetup_PreGER(fs, ref_ind, datasets), .decimate_data(q), .filter_data(Wn, order, btype), gen.filter_data(data, fs, Wn, order, btype):
+    a keyword-driven object and a positionally driven one go through the same steps; they must hold the same records bit for bit,
+    and the records must be the reference/roving split of the processed datasets."""
+    rng = ctx.np_rng
+    seqs = [[("decimate", 2), ("filter", [3.0, 3, "highpass"]), ("filter", [[2.0, 6.0], 2, "bandstop"])],
+            [("filter", [[3.0, 9.0], 3, "bandpass"]), ("decimate", 2), ("filter", [2.5, 5, "highpass"])],
+            [("filter", [5.0, 3, "highpass"]), ("decimate", 4)]]
+    for j, ops in enumerate(seqs):
+        fs, ndat = 64.0, 256
+        ns, nref = 2 + j % 2, 1 + j % 2
+        ds, rl = [], []
+        for s in range(ns):
+            n = nref + int(rng.integers(1, 4))
+            t = np.arange(ndat) / fs
+            base = np.stack([np.sin(2 * np.pi * (2.0 + c + s) * t + c) * (1 + c) + 0.05 * c * t + 0.3 * c for c in range(n)], axis=1)
+            ds.append(base + rng.integers(-64, 65, size=(ndat, n)) / 256.0)
+            rl.append([int(x) for x in rng.permutation(n)[:nref]])
+        case = dict(kind="class-data", call="positional", datasets=[d.tolist() for d in ds], refs=rl, ops=[list(o) for o in ops], fs=fs)
+        ctx.count(dict(case, datasets=None, digest=[float(d.sum()) for d in ds]))
+        ctx.hist("positional_call", "MultiSetup_PreGER(...) + preprocessing")
+        built = outcome(lambda: (MultiSetup_PreGER(fs=fs, ref_ind=[list(r) for r in rl], datasets=[d.copy() for d in ds]),
+                                 MultiSetup_PreGER(fs, [list(r) for r in rl], [d.copy() for d in ds])))
+        if built[0] != "ok":
+            ctx.fail("oracle", "MultiSetup_PreGER(fs, ref_ind, datasets) raises %s on valid input" % built[0], case, key="C03:PreGER.data:positional-call")
+            continue
+        mk, mp = built[1]
+        cur, curfs = [d.copy() for d in ds], fs
+        for (o, arg) in [("init", None)] + ops:
+            a = arg
+            if o == "decimate":
+                res = outcome(lambda: (mk.decimate_data(q=arg), mp.decimate_data(arg)))
+            elif o == "filter":
+                wn = tuple(arg[0]) if isinstance(arg[0], list) else arg[0]
+                res = outcome(lambda: (mk.filter_data(Wn=wn, order=arg[1], btype=arg[2]), mp.filter_data(wn, arg[1], arg[2])))
+                a = [wn, arg[1], arg[2]]
+            else:
+                res = ("ok", None)
+            if res[0] != "ok":
+                ctx.fail("oracle", "MultiSetup_PreGER.%s_data raises %s (keyword call, then the same call positionally)" % (o, res[0]), case,
+                         key="C03:PreGER.data:positional-call")
+                break
+            if o != "init":
+                nxt = [expected_op(o, a, d, curfs) for d in cur]
+                cur, curfs = [x for x, _ in nxt], nxt[0][1]
+            same = (same_value(float(mk.fs), float(mp.fs)) and len(mk.datasets) == len(mp.datasets) == len(mk.data) == len(mp.data) == len(ds)
+                    and all(same_value(x, y) for x, y in zip(mk.datasets, mp.datasets))
+                    and all(same_value(x["ref"], y["ref"]) and same_value(x["mov"], y["mov"]) for x, y in zip(mk.data, mp.data)))
+            if not same:
+                ctx.fail("oracle", "after %s%s the positionally driven MultiSetup_PreGER does not hold the records of the keyword-driven one"
+                         % (o, "" if arg is None else " %s" % (a,)), case, key="C03:PreGER.data:positional-call")
+                break
+            bad = abs(float(mp.fs) - curfs) > 1e-12 * curfs
+            for k2, (d, r) in enumerate(zip(cur, rl)):
+                ref, mov = oracle_split(d, r)
+                got_r, got_m = np.asarray(mp.data[k2]["ref"]), np.asarray(mp.data[k2]["mov"])
+                sc = max(1.0, np.abs(d).max())
+                bad = bad or got_r.shape != ref.shape or got_m.shape != mov.shape or not np.allclose(got_r, ref, rtol=0, atol=1e-9 * sc) \
+                    or not np.allclose(got_m, mov, rtol=0, atol=1e-9 * sc)
+            if bad:
+                ctx.fail("oracle", "MultiSetup_PreGER driven positionally: .data / .fs after %s%s is not the reference/roving split of the processed records "
+                         "at the processed sampling frequency" % (o, "" if arg is None else " %s" % (a,)), case, key="C03:PreGER.data:positional-call")
+                break
+        # the plain function behind filter_data
+        ctx.hist("positional_call", "gen.filter_data")
+        d0 = ds[0]
+        wn, od, bt = ((2.0, 7.0), 3, "bandpass") if j % 2 else (4.5, 3, "highpass")
+        fp = outcome(lambda: gen.filter_data(d0.copy(), fs, wn, od, bt))
+        fk = outcome(lambda: gen.filter_data(data=d0.copy(), fs=fs, Wn=wn, order=od, btype=bt))
+        exp = expected_op("filter", [wn, od, bt], d0, fs)[0]
+        if fp[0] != "ok" or fk[0] != "ok" or not same_value(fp[1], fk[1]) or np.shape(fp[1]) != exp.shape \
+                or not np.allclose(fp[1], exp, rtol=0, atol=1e-9 * max(1.0, np.abs(d0).max())):
+            ctx.fail("oracle", "gen.filter_data(data, fs, %s, %d, %r) called positionally (%s) differs from the keyword call (%s) or from the "
+                     "zero-phase Butterworth filter of that order and type" % (wn, od, bt, fp[0], fk[0]), dict(case, filter=[list(np.atleast_1d(wn)), od, bt]),
+                     key="C03:filter_data:positional-call")
+
+
 def gen_values(rng, shape, k):
     if k % 2 == 0:
         return rng.integers(-4096, 4097, size=shape) / 64.0
@@ -284,6 +443,8 @@ def part_split(ctx, corpus):
         ctx.count(case, nontrivial=nontrivial)
         ctx.hist("split_result", model[0])
         check_split_case(ctx, case, ds, rl, impl, model)
+        if ci % 5 == 0 and len(rl) >= len(ds) and all(valid_refs(d.shape[1], r) for d, r in zip(ds, rl)):
+            positional_split(ctx, case, ds, rl, impl)
         # the same reference lists in every other accepted container form: the same split
         if len(rl) >= len(ds) and all(valid_refs(d.shape[1], r) for d, r in zip(ds, rl)):
             for fi, form in enumerate(REF_FORMS[1:]):
@@ -681,6 +842,9 @@ def ssi_checks(ctx, spec, method, coq_jobs, rot=0):
         if bad:
             ctx.fail("oracle", "SSI_multi_setup(%s): the returned (A, C) at order 2m is not the global system over references + roving sensors "
                      "in setup order: %s" % (method, bad), case, key="C03:SSI_multi_setup:modes")
+    # ---- the fully positional call (one case in three), step = 2
+    if rot % 3 == 0:
+        positional_ssi(ctx, case, Y, spec, method, Phi, tol, Al)
     # ---- oracle: a second identification on the SAME split records (one more block row; the other method unless the
     #      participation is method specific) meets the truth as well
     m2 = method if weak else ("dat" if method == "cov_mm" else "cov_mm")
@@ -862,6 +1026,102 @@ def dtype_checks(ctx, spec, rot):
 HC_LOOSE = dict(conj=True, xi_max=0.5, mpc_lim=0.0, mpd_lim=10.0, cov_max=1e9)  # hard criteria loosened: true poles must not be wiped
 
 
+def offset_request(spec):
+    """requested frequencies 7 % off the true ones - outside the default rtol (5e-2) of mpe, inside rtol = 0.1 -, in descending mode order,
+    only for the modes that are still by far the nearest global mode to their request: -> (mode indices, requested frequencies)"""
+    perm, sel = [], []
+    for i in range(spec["m"] - 1, -1, -1):
+        for sgn in (1.0, -1.0):
+            f = spec["fn"][i] * (1.0 + sgn * 0.07)
+            d = [abs(f - g) for g in spec["fn"]]
+            if all(dd > 2.0 * d[i] for q, dd in enumerate(d) if q != i):
+                perm.append(i)
+                sel.append(float(f))
+                break
+    return perm, sel
+
+
+def triples_meet_truth(Fn, Xi, Ph, perm, spec, Phi, tol):
+    Fn, Xi, Ph = np.asarray(Fn), np.asarray(Xi), np.asarray(Ph)
+    if Fn.shape != (len(perm),) or Xi.shape != (len(perm),) or Ph.shape != (Phi.shape[0], len(perm)):
+        return False
+    return all(abs(Fn[k] - spec["fn"][i]) <= tol * spec["fn"][i] and abs(Xi[k] - spec["xi"][i]) <= tol * spec["xi"][i]
+               and mac(Ph[:, k], Phi[:, i]) >= 1 - tol for k, i in enumerate(perm))
+
+
+def positional_mpe(ctx, case, spec, ms, alg, method, tol, Phi):
+    """MultiSetup_PreGER.mpe(name, sel_freq, order, rtol), SSIdat_MS.mpe(sel_freq, order, rtol) and
+    ssi.SSI_mpe(freq_ref, Fn_pol, Xi_pol, Phi_pol, order, Lab, rtol, Fn_cov, Xi_cov, Phi_cov), each by keywords and fully positionally
+    on the run of `alg` (named "a"), with requests that are only met with the non-default rtol at the non-default order 2m."""
+    m = spec["m"]
+    perm, sel = offset_request(spec)
+    if not perm:
+        ctx.hist("positional_call", "mpe: no unambiguous 7 % request (skipped)")
+        return
+    cs = dict(case, step="positional mpe", call="positional", mpe_order=perm, sel_freq=sel, rtol=0.1)
+    ctx.hist("positional_call", "MultiSetup_PreGER.mpe / SSIdat_MS.mpe / ssi.SSI_mpe")
+    ctx.count(dict(cs, part="positional-mpe"))
+    key = "C03:mpe:positional-call"
+
+    def got():
+        R = alg.result
+        return [np.array(R.Fn, copy=True), np.array(R.Xi, copy=True), np.array(R.Phi, copy=True), R.order_out]
+
+    p1, p2 = (perm, sel), (perm[::-1], sel[::-1])
+    calls = [("setup.mpe('a', sel_freq=, order=2m, rtol=0.1)", p1, lambda s: ms.mpe("a", sel_freq=list(s), order=2 * m, rtol=0.1)),
+             ("setup.mpe('a', sel_freq, 2m, 0.1)", p2, lambda s: ms.mpe("a", list(s), 2 * m, 0.1)),
+             ("algorithm.mpe(sel_freq=, order=2m, rtol=0.1)", p2, lambda s: alg.mpe(sel_freq=list(s), order=2 * m, rtol=0.1)),
+             ("algorithm.mpe(sel_freq, 2m, 0.1)", p1, lambda s: alg.mpe(list(s), 2 * m, 0.1))]
+    res = []
+    for what, (pp, ss), f in calls:
+        o = outcome(lambda: f(ss))
+        if o[0] != "ok":
+            ctx.fail("oracle", "%s raises %s (global modes %s requested 7 %% off their frequencies)" % (what, o[0], pp), cs, key=key)
+            return
+        res.append(got())
+    for (ik, ip) in ((0, 3), (2, 1)):
+        what, (pp, ss), _ = calls[ip]
+        if not same_value(res[ik], res[ip]):
+            ctx.fail("oracle", "%s does not give the result of %s (global modes %s requested 7 %% off their frequencies: met only at order 2m with rtol 0.1)"
+                     % (what, calls[ik][0], pp), cs, key=key)
+            return
+        if tol <= TOL_CAP and not triples_meet_truth(res[ip][0], res[ip][1], res[ip][2], pp, spec, Phi, tol):
+            ctx.fail("oracle", "%s: result.Fn/Xi/Phi are not the global modes %s in the requested order (Fn %s for requests %s)"
+                     % (what, pp, np.asarray(res[ip][0]).tolist(), ss), cs, key=key)
+            return
+    # the plain function on the pole tables of the run; distinguishable stand-ins for the three covariance tables
+    R = alg.result
+    Fp, Xp, Pp, Lab = np.asarray(R.Fn_poles), np.asarray(R.Xi_poles), np.asarray(R.Phi_poles), np.asarray(R.Lab)
+    Fc, Xc, Pc = Fp + 1000.0, Xp + 2000.0, np.abs(Pp) + 3000.0
+    op = outcome(lambda: ssi.SSI_mpe(list(sel), Fp, Xp, Pp, 2 * m, Lab, 0.1, Fc, Xc, Pc))
+    ok = outcome(lambda: ssi.SSI_mpe(freq_ref=list(sel), Fn_pol=Fp, Xi_pol=Xp, Phi_pol=Pp, order=2 * m, Lab=Lab, rtol=0.1, Fn_cov=Fc, Xi_cov=Xc, Phi_cov=Pc))
+    key = "C03:SSI_mpe:positional-call"
+    if op[0] != "ok" or ok[0] != "ok" or not same_value(list(op[1]), list(ok[1])):
+        ctx.fail("oracle", "SSI_mpe(freq_ref, Fn_pol, Xi_pol, Phi_pol, 2m, Lab, 0.1, Fn_cov, Xi_cov, Phi_cov) called positionally (%s) differs from "
+                 "the same call by keywords (%s)" % (op[0], ok[0]), cs, key=key)
+        return
+    out = list(op[1])
+    if len(out) != 7 or not same_value(out[:3], res[3][:3]) or out[3] != 2 * m or not same_value(out[4], np.asarray(out[0]) + 1000.0) \
+            or not same_value(out[5], np.asarray(out[1]) + 2000.0) or not same_value(out[6], np.abs(np.asarray(out[2])) + 3000.0):
+        ctx.fail("oracle", "SSI_mpe called positionally on the pole tables of the run: Fn/Xi/Phi are not those of algorithm.mpe for the same request, "
+                 "or the order / the covariance entries returned are not those of the selected poles", cs, key=key)
+        return
+    # order = "find_min" (Lab and the ABSOLUTE window rtol matter): all poles labelled stable, requests 0.15 Hz off, window 0.25 Hz
+    fa = sorted(float(f) for f in spec["fn"])
+    if m == 1 or min(np.diff(fa)) >= 1.0:
+        req, Lab1 = [f + 0.15 for f in fa], np.ones(Fp.shape)
+        fp = outcome(lambda: ssi.SSI_mpe(req, Fp, Xp, Pp, "find_min", Lab1, 0.25))
+        fk = outcome(lambda: ssi.SSI_mpe(freq_ref=req, Fn_pol=Fp, Xi_pol=Xp, Phi_pol=Pp, order="find_min", Lab=Lab1, rtol=0.25))
+        found = fp[0] == "ok" and fp[1][3] is not None
+        ctx.hist("positional_find_min", "found" if found else "not found")
+        if fp[0] != "ok" or fk[0] != "ok" or not same_value(list(fp[1]), list(fk[1])):
+            ctx.fail("oracle", "SSI_mpe(freq_ref, Fn_pol, Xi_pol, Phi_pol, 'find_min', Lab, 0.25) called positionally (%s) differs from the same call "
+                     "by keywords (%s)" % (fp[0], fk[0]), dict(cs, sel_freq=req, rtol=0.25, order="find_min"), key=key)
+        elif found and tol <= TOL_CAP and not (np.shape(fp[1][0]) == (m,) and np.allclose(fp[1][0], fa, rtol=tol, atol=0)):
+            ctx.fail("oracle", "SSI_mpe(..., 'find_min', Lab, 0.25) called positionally: the frequencies found (%s) are not the global ones"
+                     % np.asarray(fp[1][0]).tolist(), dict(cs, sel_freq=req, rtol=0.25, order="find_min"), key=key)
+
+
 def e2e_object(ctx, spec, methods, order_k):
     """(iii): ONE MultiSetup_PreGER object, several identifications on the same split data: the listed _MS algorithms through
     add_algorithms/run_all/mpe, then one more algorithm with another number of block rows, then the first algorithm run again.
@@ -1007,6 +1267,15 @@ def e2e_object(ctx, spec, methods, order_k):
         me3 = methods[-1] if order_k % 2 == 0 else methods[0]
         step = "run_by_name(%s, br+1)" % cls_of[me3]
         c = make("c", me3, br + 1)
+        if order_k % 2 == 0:  # the algorithm built as Class(run_params, name): the same algorithm as Class(name=, **run parameters)
+            ctx.hist("positional_call", "SSIdat_MS / SSIcov_MS(run_params, name)")
+            kwc = dict(br=br + 1, ordmax=2 * m, ordmin=0, step=1, hc=dict(HC_LOOSE), **({"method": "cov_mm"} if me3 == "cov_mm" else {}))
+            cls3 = SSIcov_MS if me3 == "cov_mm" else SSIdat_MS
+            twin, c = cls3(name="c", **kwc), cls3(SSIRunParams(**kwc), "c")
+            if c.name != "c" or twin.name != "c" or c.run_params != twin.run_params:
+                ctx.fail("oracle", "%s(run_params, 'c') is not the algorithm %s(name='c', **run parameters): name %r, run parameters %s"
+                         % (cls_of[me3], cls_of[me3], c.name, "equal" if c.run_params == twin.run_params else "differ"),
+                         dict(case, step=step, call="positional"), key="C03:algorithm-constructor:positional-call")
         ms.add_algorithms(c)
         ms.run_by_name("c")
         extract(c, "c", me3, br + 1, "later identification on the same object: %s, br=%d" % (cls_of[me3], br + 1), [rev[:2], rot])
@@ -1014,6 +1283,11 @@ def e2e_object(ctx, spec, methods, order_k):
         step = "re-run(%s)" % cls_of[methods[0]]
         ms.run_by_name("a")
         extract(algs["a"], "a", methods[0], br, "re-run on the same object: %s, br=%d" % (cls_of[methods[0]], br), [zig, [(j0 + 1) % m]])
+        # the extraction called fully positionally (every other object)
+        if order_k % 2 == 0:
+            step = "positional mpe(%s)" % cls_of[methods[0]]
+            positional_mpe(ctx, case, spec, ms, algs["a"], methods[0], case_tol(spec, Y0, br, methods[0]), Phi)
+            intact(ms, step)
     except Exception as e:  # noqa: BLE001
         ctx.fail("oracle", "MultiSetup_PreGER + %s: %s raises %s on noise-free records" % ("/".join(cls_of[x] for x in methods), step, type(e).__name__),
                  dict(case, step=step), key="C03:e2e:raises")
@@ -1038,7 +1312,9 @@ def run(ctx):
                          "different request subsets on one run (single mode then all, all then a subset; pole tables bit-unchanged); every other case with all "
                          "array inputs read-only; scalar options rotating through Python / NumPy-scalar / 0-d forms; records also as int16/32/64, "
                          "uint8/16, float32 (same result as the float64 image); one case in four "
-                         "with two global modes 1-4 % apart; "
+                         "with two global modes 1-4 % apart; a share of the cases calls every entry point (pre_multisetup, filter_data, SSI_multi_setup, "
+                         "SSI_mpe, MultiSetup_PreGER and its preprocessing, setup/algorithm mpe, the algorithm constructor) by keywords AND fully "
+                         "positionally in the documented parameter order with non-default values (same answer, same oracle); "
                          "non-trivial = always (>= 2 setups, gains differ); distinct by hash of the full spec")
     ctx.assumptions += [
         "oracle contracts (hypotheses of C03_identifies_global_partial): np.linalg.svd per setup delivers Obs_k = O_k T_k with T_k right-invertible "
@@ -1106,3 +1382,5 @@ def run(ctx):
     for (exprs, mks, case, Obs, Ah, Ch) in coq_jobs:
         compare_with_model(ctx, res[pos:pos + len(exprs)], mks, case, Obs, Ah, Ch)
         pos += len(exprs)
+    # ---- positional call forms of the setup class and its preprocessing (last: draws from the generator after everything else)
+    positional_class(ctx)
